@@ -100,8 +100,7 @@ func (p *ProjectRunner) Run() error {
 	for _, proc := range runOrder {
 		newConf := proc
 		if !p.launchProcess(&newConf, true) {
-			log.Info().Msgf("Project shutdown requested - not starting %s and the processes after it", proc.ReplicaName)
-			break
+			log.Info().Msgf("Project shutdown requested - not starting %s", proc.ReplicaName)
 		}
 	}
 	p.waitGroup.Wait()
@@ -153,6 +152,8 @@ func (p *ProjectRunner) launchProcess(config *types.ProcessConfig, unlessShuttin
 		withExtraArgs(extraArgs),
 	)
 	if !p.addRunningProcess(process, unlessShuttingDown) {
+		// never launched: do not leave it Pending for ever
+		process.onProcessEnd(types.ProcessStateCompleted)
 		return false
 	}
 	p.waitGroup.Add(1)
